@@ -1,6 +1,6 @@
 SPECIFICATION Spec
 CONSTANTS
   Mods = {"ma", "mb", "mc"}
-  Family = "flat3"
+  Families = {"flat2", "sample"}
 INVARIANTS TypeOK RunOnce NoReentry OneObject Provenance StarRespectsUnderscore Terminates Usable Emit
 CHECK_DEADLOCK FALSE
